@@ -12,7 +12,8 @@ RULE = ("lat in [-90, 90], lon in [-360, 360] incl. poles and cardinal meridians
         "cross-covariance blocks, fully correlated station pairs, tied variances; matrices held as fresh arrays, views of a larger "
         "array, Fortran order, int64 / float32; angle objects for both vector conversions; all integer degrees of freedom -5..200 (complete); non-trivial = off the poles/equator/cardinal "
         "meridians with a non-diagonal matrix (rotations), any dof (table)")
-ASSUMPTIONS = ["closed forms: east = (-sin lon, cos lon, 0), north = (-sin lat cos lon, -sin lat sin lon, cos lat), "
+ASSUMPTIONS = ["latitude / longitude given as any real scalar (Python int / float, numpy float64 / float32 / int32) denote the real number they hold; the frame of that number is required at double precision, which is what the library delivers (it converts with math.radians)",
+               "closed forms: east = (-sin lon, cos lon, 0), north = (-sin lat cos lon, -sin lat sin lon, cos lat), "
                "up = (cos lat cos lon, cos lat sin lon, sin lat) (the ellipsoid normal)",
                "Student-t quantiles from scipy.stats.t.ppf, cross-checked at start-up by an in-harness bisection on the regularised "
                "incomplete beta function",
@@ -98,12 +99,24 @@ def selftest():
 
 # ------------------------------------------------------------------------------------------------ checks
 
+def _scalar(x, kind):
+    """x as a numpy / Python scalar of the given kind where that kind holds x exactly (else x itself)."""
+    if kind == "np32" and float(np.float32(x)) == float(x):
+        return np.float32(x)
+    if kind == "npint" and float(x).is_integer():
+        return np.int32(int(x))
+    return S.as_kind(x, kind if kind in ("int", "np64") else "float")
+
+
 def check_frame(case):
     stt = repo.mod("geodepy.statistics")
     gd = repo.mod("geodepy.geodesy")
     lat, lon = case["lat"], case["lon"]
-    R = stt.rotation_matrix(lat, lon)
-    if not (hasattr(R, "shape") and R.shape == (3, 3)):
+    ak = case.get("anum", "float")
+    # latitude / longitude as any real scalar (Python int, numpy float64 / float32 / int32): each denotes the real number it
+    # holds, and the frame of THAT number is required at double precision (the library converts with math.radians)
+    R = np.asarray(stt.rotation_matrix(_scalar(lat, ak), _scalar(lon, ak)), dtype=float)
+    if R.shape != (3, 3):
         raise Fail("rotation_matrix did not return a 3x3 array", observed=repr(R))
     e, n, u = _frame(lat, lon)
     want = np.column_stack([e, n, u])
@@ -177,8 +190,9 @@ def check_vcv(case):
     e, n, u = _frame(lat, lon)
     R = np.column_stack([e, n, u])
     scale = TR.fro(V)
+    ak = case.get("anum", "float")
     for name, fn, want in (("vcv_cart2local", stt.vcv_cart2local, R.T @ V @ R), ("vcv_local2cart", stt.vcv_local2cart, R @ V @ R.T)):
-        out = fn(Vcall, lat, lon)
+        out = fn(Vcall, _scalar(lat, ak), _scalar(lon, ak))
         if not np.array_equal(np.array(Vcall, dtype=float), Vin) or (big is not None and not np.array_equal(big, big_before)):
             raise Fail("%s modified the caller's matrix" % name, expected=Vin, observed=np.array(Vcall, dtype=float))
         if getattr(out, "shape", None) != (3, 3):
@@ -380,10 +394,13 @@ def _cls(case):
     return out
 
 
-frame_cases = st.fixed_dictionaries({"lat": S.whole_sometimes(lat_s), "lon": S.whole_sometimes(lon_s),
+_quarters = lambda s: st.one_of(s, s, s.map(lambda v: float(round(v))), s.map(lambda v: round(v * 4) / 4.0))      # noqa
+frame_cases = st.fixed_dictionaries({"lat": _quarters(lat_s), "lon": _quarters(lon_s),
+                                     "anum": st.sampled_from(["float", "float", "np64", "int", "np32", "np32", "npint"]),
                                      "v": st.one_of(vec_s, vec_s.map(lambda p: [float(round(c)) for c in p])), "kind": S.angle_kind,
                                      "num": S.num_kind})
-vcv_cases = st.fixed_dictionaries({"lat": lat_s, "lon": lon_s, "vcv": psd_cond(),
+vcv_cases = st.fixed_dictionaries({"lat": _quarters(lat_s), "lon": _quarters(lon_s), "vcv": psd_cond(),
+                                   "anum": st.sampled_from(["float", "float", "float", "np64", "np32", "int"]),
                                    "held": st.sampled_from(["plain", "plain", "plain", "view", "fortran", "int", "f32"])})
 col_cases = st.fixed_dictionaries({"lat": lat_s, "lon": lon_s, "col": st.lists(st.one_of(S.floats(0.0, 1.0), S.log_uniform(1e-10, 10.0)),
                                                                                min_size=3, max_size=3)})
